@@ -67,6 +67,21 @@ class Obj(object):
         self.id = i
 
 
+class EqObj(Obj):
+    """A value-like object (a dict, a dataclass, a tuple of settings): distinct instances compare equal.  The factory is about
+    instances, so the id is what the oracles follow."""
+    __slots__ = ()
+
+    def __eq__(self, other):
+        return isinstance(other, Obj)
+
+    def __ne__(self, other):
+        return not self.__eq__(other)
+
+    def __hash__(self):
+        return 0
+
+
 # ----------------------------------------------------------------------------- implementation driver (part A)
 class Actor(object):
     def __init__(self, world, idx, body):
@@ -160,9 +175,10 @@ class Actor(object):
 class World(object):
     """One ThreadedFactory, n worker threads and one thread that calls teardown_factory, under a schedule."""
 
-    def __init__(self, n, setup_fail, td_fail, td_fail_base=()):
+    def __init__(self, n, setup_fail, td_fail, td_fail_base=(), equal_objects=False):
         from lemoncheesecake.helpers.threading import ThreadedFactory
         world = self
+        self.equal_objects = equal_objects
         self.tls = threading.local()
         self.get_code = ThreadedFactory.get_object.__code__
         self.td_code = ThreadedFactory.teardown_factory.__code__
@@ -185,7 +201,7 @@ class World(object):
                     world.nfailed[a.idx] = k + 1
                     world.events.append(("failed", a.idx))
                     raise SetupError()
-                o = Obj(world.next_id)
+                o = (EqObj if world.equal_objects else Obj)(world.next_id)
                 world.next_id += 1
                 world.events.append(("created", a.idx, o.id))
                 return o
@@ -296,7 +312,7 @@ def run_lifetimes(case):
         def setup_object(self):
             with lock:
                 counter[0] += 1
-                o = Obj(counter[0])
+                o = (EqObj if case.get("equal_objects") else Obj)(counter[0])
                 ev.append(("created", threading.current_thread().name, o.id))
                 if threading.current_thread().name in raising:
                     bad.add(o.id)
@@ -402,11 +418,12 @@ def gen_lifetimes(rng, tier):
     n = rng.randint(1, 6)
     p_raise = rng.choice([0.0, 0.0, 0.3, 0.6, 1.0])
     return {"threads": [{"accesses": rng.choice([0, 1, 1, 2, 3]), "ends_before_teardown": rng.random() < 0.5,
-                         "td_raises": rng.random() < p_raise} for _ in range(n)]}
+                         "td_raises": rng.random() < p_raise} for _ in range(n)],
+            "equal_objects": rng.random() < 0.4}
 
 
 def run_schedule(case):
-    w = World(case["n"], case["setup_fail"], case["td_fail"], case.get("td_fail_base", []))
+    w = World(case["n"], case["setup_fail"], case["td_fail"], case.get("td_fail_base", []), case.get("equal_objects", False))
     obs = w.run(case["sch"])
     case["sch"] = list(w.effective)      # "Q" entries replaced by the concrete steps they stood for
     return obs, list(w.events)
@@ -520,7 +537,8 @@ def gen_case(rng, tier):
         sch = [th() for _ in range(length)]
     else:
         sch = [("M" if rng.random() < 0.1 else th()) for _ in range(length)]
-    return {"n": n, "setup_fail": setup_fail, "td_fail": td_fail, "td_fail_base": td_fail_base, "sch": sch, "shape": shape}
+    return {"n": n, "setup_fail": setup_fail, "td_fail": td_fail, "td_fail_base": td_fail_base, "sch": sch, "shape": shape,
+            "equal_objects": rng.random() < 0.3}     # value-like objects: distinct instances that compare equal
 
 
 # ----------------------------------------------------------------------------- Gallina
@@ -638,7 +656,8 @@ def gen_project(rng, tier):
     nsuites = rng.choice([1, 2, 3])
     fixtures = []
     for i in range(rng.choice([1, 2, 3])):
-        fixtures.append({"name": "fx%d" % i, "scope": rng.choice(["session", "suite"]), "generator": rng.random() < 0.6})
+        fixtures.append({"name": "fx%d" % i, "scope": rng.choice(["session", "suite"]), "generator": rng.random() < 0.6,
+                         "form": rng.choice(["genfunc", "genfunc", "delegating"])})
     suites = []
     for s in range(nsuites):
         tests = []
@@ -821,6 +840,8 @@ def check(run):
         ev = run_lifetimes(case)
         run.evaluations += 1
         run.count("lifetime_cases")
+        if case.get("equal_objects"):
+            run.count("lifetime_cases_with_equal_valued_objects")
         if sum(1 for t in case["threads"] if t["accesses"] and t["ends_before_teardown"]) and \
                 sum(1 for t in case["threads"] if t["accesses"] and not t["ends_before_teardown"]):
             run.nontrivial.add("C:" + json.dumps(case, sort_keys=True))
@@ -830,7 +851,7 @@ def check(run):
                 continue
             small = case
             for k in range(len(case["threads"]) - 1, -1, -1):       # shrink: drop threads while it still fails the same way
-                c2 = {"threads": small["threads"][:k] + small["threads"][k + 1:]}
+                c2 = dict(small, threads=small["threads"][:k] + small["threads"][k + 1:])
                 if c2["threads"] and any(x[0] == h[0] for x in oracle_lifetimes(c2, run_lifetimes(c2))):
                     small = c2
             run.violation("oracle:" + h[0], h[1], {"part": "C", "case": small, "events": run_lifetimes(small)})
@@ -857,6 +878,8 @@ def check(run):
         run.evaluations += 1
         run.count("schedules")
         run.count("shape:" + case["shape"])
+        if case.get("equal_objects"):
+            run.count("schedules_with_equal_valued_objects")
         run.count("threads", case["n"])
         run.count("steps", len(case["sch"]))
         creators = len(set(e[1] for e in ev if e[0] == "created"))
@@ -906,6 +929,8 @@ def check(run):
             run.nontrivial.add("B:" + json.dumps(spec, sort_keys=True))
         if any(e[0] == "teardown_raise" for e in res["events"]):
             run.count("projects_with_raising_fixture_teardown")
+        if any(f["generator"] and f.get("form") == "delegating" for f in spec["fixtures"]):
+            run.count("projects_with_a_fixture_function_returning_a_generator")
         for h in oracle_project(spec, res):
             if any(x["signature"] == "oracle:" + h[0] for x in run.oracle_hits):
                 continue
